@@ -180,17 +180,27 @@ def run(ctx):
         for o in rec["out"]:
             kinds[o["kind"]] = kinds.get(o["kind"], 0) + 1
         ctx.nontrivial(str([rec[k] for k in ("func", "engine", "reindex", "arrdask", "bydask", "expected", "dtypearg", "layout", "dtype", "shape", "axis")]))
-        # accepted 1-D results: also against the reference
-        if rec["shape"] == "1d" and rec["func"] not in ("median", "nanquantile") and "groups" in rec:
+        # accepted results: also against the reference (1-D; batch rows separately; 2-D labels reduced over all axes = the
+        # flattened problem in C order)
+        if rec["func"] not in ("median", "nanquantile") and "groups" in rec:
+            rows = None
+            if rec["shape"] == "1d":
+                rows = [(rec["vals"], codes)]
+            elif rec["shape"] == "2dbatch":
+                rows = [(rec["vals"], codes), (list(reversed(rec["vals"])), codes)]
+            elif rec["shape"] == "2dby" and rec["axis"] is not None and len(rec["axis"]) == 2 and FUNCS[rec["func"]] != "arg":
+                rows = [(rec["vals"] + list(reversed(rec["vals"])), codes + codes)]
             for mi, o in enumerate(rec["out"]):
-                if o["kind"] != "ok" or (METHODS[mi] == "blockwise" and not line["confined"] and (rec["arrdask"] or rec["bydask"])):
+                if rows is None or o["kind"] != "ok" or (METHODS[mi] == "blockwise" and not line["confined"] and (rec["arrdask"] or rec["bydask"])):
                     continue
-                r = {"func": rec["func"], "vals": rec["vals"], "codes": codes, "req": rec["req"], "fill": None if rec["req"] is None else ([-1, 1] if FUNCS[rec["func"]] == "arg" else [0, 0]),
-                     "groups": rec["groups"], "out": o["vals"], "ddof": 1 if rec["func"] == "var" else 0, "sort": True}
-                if len(r["out"]) != len(r["groups"]):
+                ng = len(rec["groups"])
+                if len(o["vals"]) != ng * len(rows):
                     continue
-                red_owner[len(red)] = (rec, METHODS[mi])
-                red.append(redcase.tlc_record(r, len(red), check_groups=False))
+                for ri, (rv, rc) in enumerate(rows):
+                    r = {"func": rec["func"], "vals": rv, "codes": rc, "req": rec["req"], "fill": None if rec["req"] is None else ([-1, 1] if FUNCS[rec["func"]] == "arg" else [0, 0]),
+                         "groups": rec["groups"], "out": o["vals"][ri * ng : (ri + 1) * ng], "ddof": 1 if rec["func"] == "var" else 0, "sort": True}
+                    red_owner[len(red)] = (rec, METHODS[mi])
+                    red.append(redcase.tlc_record(r, len(red), check_groups=False))
     ctx.cov["outcome_kinds"] = kinds
     ctrl = {"id": -7, "hascfg": False, "cfg": lines[0]["cfg"], "confined": True, "skipbw": False,
             "out": [{"kind": "TypeError", "vals": [], "plan": "-"}, {"kind": "ok", "vals": [[1, 1]], "plan": "-"}, {"kind": "ok", "vals": [[2, 1]], "plan": "-"},
